@@ -45,6 +45,7 @@ Names == <<
   "C13_OrderShardsExist", "C13_ShardListedByItsOrder", "C13_CompletedShardScheduled", "C13_AliasBijection",
   "C14_UsedIsSum", "C14_WorkerIsSum", "C14_ShardPledgedIsSum", "C14_PoolIsSum",
   "C15_Placement",
+  "C17_BindingFunctional", "C17_ListMatchesBinding", "C17_SidPayAddrBound", "C17_KidInjective", "C17_BindingProven", "C17_PayAddrChange",
   "C16_IdsFresh", "C16_OneInFlight", "C16_BaseIsLatest", "C16_HistoryChain" >>
 
 V(app, ok) == [app |-> app, ok |-> ~app \/ ok]
@@ -96,6 +97,12 @@ Verdict(name, x, g) ==
     [] name = "C14_ShardPledgedIsSum"    -> V(TRUE, C14_ShardPledgedIsSum(s))
     [] name = "C14_PoolIsSum"            -> V(TRUE, C14_PoolIsSum(s))
     [] name = "C15_Placement"            -> V(C15_app(x), C15_Placement(x))
+    [] name = "C17_BindingFunctional"    -> V(TRUE, C17_BindingFunctional(s))
+    [] name = "C17_ListMatchesBinding"   -> V(TRUE, C17_ListMatchesBinding(s))
+    [] name = "C17_SidPayAddrBound"      -> V(TRUE, C17_SidPayAddrBound(s, g.cfg))
+    [] name = "C17_KidInjective"         -> V(TRUE, C17_KidInjective(s))
+    [] name = "C17_BindingProven"        -> V(IsTx(x), C17_BindingProven(x))
+    [] name = "C17_PayAddrChange"        -> V(IsTx(x), C17_PayAddrChange(x, g.cfg))
     [] name = "C16_IdsFresh"             -> V(TRUE, C16_IdsFresh(x))
     [] name = "C16_OneInFlight"          -> V(C16_Update_app(x), C16_OneInFlight(x))
     [] name = "C16_BaseIsLatest"         -> V(C16_Update_app(x), C16_BaseIsLatest(x))
